@@ -740,6 +740,30 @@ example : (VState.runF wOpsF).abs = [LabelF.enc (.int 1), LabelF.enc (.frac 5 2)
     VState.flagsF wOpsF = [true, true, true, true, true, true] := by
   decide +kernel
 
+/-- **every history over the WHOLE alphabet with `LabelF` arguments** (the seven mutators + `_extend` from any iterable with
+    explicit / auto labels, `copy`, the pickle round trip, slicing `v[a:b:c]`; from the empty object): same statement -/
+theorem labelF_history2_bijection (ops : List OpF2) (hwf : ∀ op ∈ ops, op.WF) :
+    ∃ lF : List LabelF,
+      lF.map LabelF.enc = (VState.runF2 ops).abs ∧ lF.map LabelF.enc = LSpec.runF2 ops ∧ (VState.runF2 ops).Inv ∧
+      lF.Nodup ∧ lF.length = (VState.runF2 ops).stop ∧
+      (∀ v : LabelF, (VState.runF2 ops).count v.enc = true ↔ v ∈ lF) ∧
+      (∀ (v : LabelF) (i : Nat), (VState.runF2 ops).index? v.enc = some i ↔ lF[i]? = some v) := by
+  obtain ⟨hinv, hspec, himg⟩ := VState.runF2_spec ops hwf
+  obtain ⟨lF, h1, h2, h3, h4, h5⟩ := VState.labelF_view _ hinv himg
+  exact ⟨lF, h1, by rw [h1, hspec], hinv, h2, h3, h4, h5⟩
+
+def wOpsF2 : List OpF2 := [.extend [some (.frac 3 2), none, some (.int 1), some (.tup [.frac 1 2])] true, .pickle,
+  .slice ⟨none, none, some (-1)⟩, .base (.remove (.int 1)), .copy]
+
+example : (∀ op ∈ wOpsF2, op.WF) := by
+  intro op h
+  simp only [wOpsF2, List.mem_cons, List.not_mem_nil, or_false] at h
+  rcases h with rfl | rfl | rfl | rfl | rfl <;> simp [OpF2.WF, OpF.WF]
+
+example : (VState.runF2 wOpsF2).abs = [LabelF.enc (.tup [.frac 1 2]), LabelF.enc (.frac 3 2)] ∧
+    (VState.runF2 wOpsF2).index? (LabelF.enc (.frac 3 2)) = some 1 := by
+  decide +kernel
+
 end C13
 
 section AxiomsR8
@@ -747,6 +771,7 @@ section AxiomsR8
 #print axioms C13.labelF_int_preserved
 #print axioms C13.labelF_embedding
 #print axioms C13.labelF_history_bijection
+#print axioms C13.labelF_history2_bijection
 end AxiomsR8
 
 section AxiomsR7
